@@ -308,6 +308,14 @@ def exec_state(df, st, emb, part, arrays):
             case.viol("C11_KCentres", "mesh_fftn", "raises", "Mesh.fftn raised", exc=repr(ex))
             return
         try:
+            # an EARLIER result of the same inverse transform is moved in place first (the recentring the docstring of
+            # Mesh.ifftn recommends): the result examined below is a mesh of its own (seeded change C11-11 handed the same
+            # cached Mesh object to every inverse transform of one k-mesh)
+            try:
+                first = km.ifftn(rfft=rf, shape=shape)
+                first.translate(tuple(3.0 * float(e) for e in first.region.edges), inplace=True)
+            except Exception:  # noqa: BLE001  (judged on the call below)
+                pass
             back = km.ifftn(rfft=rf, shape=shape)
             ok = True
         except Exception as ex:
@@ -400,12 +408,14 @@ def exec_state(df, st, emb, part, arrays):
         f = mk(carr, real)
         demanded = way != "real" or m["n"][-1] % 2 == 0
         try:
-            if way == "full":
-                h = f.fftn().ifftn()
-            elif way == "real_shape":
-                h = f.rfftn().irfftn(shape=f.mesh.n)
-            else:
-                h = f.rfftn().irfftn()
+            F = f.fftn() if way == "full" else f.rfftn()
+            inv = (lambda: F.ifftn()) if way == "full" else (lambda: F.irfftn(shape=f.mesh.n)) if way == "real_shape" else (lambda: F.irfftn())
+            try:
+                first = inv()   # an earlier result whose mesh is then moved in place (see mesh_ifftn above)
+                first.mesh.translate(tuple(3.0 * float(e) for e in first.mesh.region.edges), inplace=True)
+            except Exception:  # noqa: BLE001
+                pass
+            h = inv()
             ok = True
         except Exception as ex:
             ok, h = False, repr(ex)
